@@ -47,6 +47,16 @@ def _local_simplification(a: ast.Lambda) -> ast.Lambda:
     return r
 
 
+def _own_copy(f: Any, known_types: Dict[str, Any]) -> Any:
+    """A lambda given as an AST is rewritten in place (sugar, type following). Unless this is the
+    library's own call for a nested lambda (which relies on that), work on a copy: the caller
+    may hand the same AST to another stream.
+    """
+    if isinstance(f, ast.AST) and len(known_types) == 0:
+        return copy.deepcopy(f)
+    return f
+
+
 class ObjectStream(Generic[T]):
     r"""
     The objects can be events, jets, electrons, or just floats, or arrays of floats.
@@ -119,7 +129,7 @@ class ObjectStream(Generic[T]):
         from func_adl.type_based_replacement import remap_from_lambda
 
         n_stream, n_ast, rtn_type = remap_from_lambda(
-            self, _local_simplification(parse_as_ast(func, "SelectMany")), known_types
+            self, _local_simplification(parse_as_ast(_own_copy(func, known_types), "SelectMany")), known_types
         )
         check_ast(n_ast)
 
@@ -151,7 +161,7 @@ class ObjectStream(Generic[T]):
         from func_adl.type_based_replacement import remap_from_lambda
 
         n_stream, n_ast, rtn_type = remap_from_lambda(
-            self, _local_simplification(parse_as_ast(f, "Select")), known_types
+            self, _local_simplification(parse_as_ast(_own_copy(f, known_types), "Select")), known_types
         )
         check_ast(n_ast)
         return self.clone_with_new_ast(
@@ -181,7 +191,7 @@ class ObjectStream(Generic[T]):
         from func_adl.type_based_replacement import remap_from_lambda
 
         n_stream, n_ast, rtn_type = remap_from_lambda(
-            self, _local_simplification(parse_as_ast(filter, "Where")), known_types
+            self, _local_simplification(parse_as_ast(_own_copy(filter, known_types), "Where")), known_types
         )
         check_ast(n_ast)
         if rtn_type != bool:
